@@ -40,7 +40,14 @@ def check_definition(case):
     if gabor_degenerate(spec["bank"], _thr()) or gammatone_degenerate(spec["bank"], _thr()):
         raise Discard()
     bank = call("bank constructor", build_bank, spec["bank"])
+    sib = case.get("sibling")
+    if sib == "before":
+        # another computer around the SAME bank object (different include_energy) is built first ...
+        call("SI constructor (sibling)", build_si, dict(spec, include_energy=not spec["include_energy"]), bank)
     comp = call("SI constructor", build_si, spec, bank)
+    if sib == "after":
+        # ... or afterwards: computers sharing a bank must not share anything else
+        call("SI constructor (sibling)", build_si, dict(spec, include_energy=not spec["include_energy"]), bank)
     S = comp.frame_shift
     if S < 1 or S >= si_shift_bound(bank):
         raise Discard()
@@ -168,7 +175,7 @@ def _cases(draw, dtypes=("f64", "f64", "f32", "f16", "ld")):
     prior = draw(st.one_of(st.none(), st.none(), st.fixed_dictionaries({
         "sig": signal_specs(st.integers(0, 300)), "chunked": st.booleans()})))
     return {"comp": comp, "dtype": draw(st.sampled_from(list(dtypes))), "sig": draw(signal_specs(st.just(n))), "prior": prior,
-            "config": draw(log_floor_configs())}
+            "config": draw(log_floor_configs()), "sibling": draw(st.sampled_from([None, None, "before", "after"]))}
 
 
 def clauses(tier):
